@@ -7,10 +7,15 @@ mkdir -p $OUT
 ( cd $WT && PYTHONPATH=$WT/src /venv/bin/python demo_$PID.py >/dev/null 2>&1; echo "demo with change: exit $?" )
 if git -C /repo apply --check $OUT/patch.diff 2>/dev/null; then
   ( cd $WT && git apply -R $OUT/patch.diff && PYTHONPATH=$WT/src /venv/bin/python demo_$PID.py >/dev/null 2>&1; echo "demo without change: exit $?"; git apply $OUT/patch.diff )
-  git -C /repo apply $OUT/patch.diff
-  ( cd /verif && VERIF_JOBS=${JOBS:-8} ./check $PID --tier quick 2>&1 | grep -E "^VIOLATION|sig=|done:|KNOWN" | cut -c1-200 | head -${LINES_:-7} )
-  git -C /repo checkout -- .
-  git -C /repo status --short | head -3
+  if [ -n "$SEED_VIA_WORKTREE" ]; then
+    # run against the seed worktree (= /repo HEAD + patch) so that /repo stays untouched while others use it
+    ( cd /verif && VERIF_REPO=$WT VERIF_BUILD=/tmp/mut-build VERIF_JOBS=${JOBS:-8} ./check $PID --tier quick 2>&1 | grep -E "^VIOLATION|sig=|done:" | cut -c1-200 | head -${LINES_:-7} )
+  else
+    git -C /repo apply $OUT/patch.diff
+    ( cd /verif && VERIF_JOBS=${JOBS:-8} ./check $PID --tier quick 2>&1 | grep -E "^VIOLATION|sig=|done:" | cut -c1-200 | head -${LINES_:-7} )
+    git -C /repo checkout -- .
+    git -C /repo status --short | head -3
+  fi
 else
   echo "patch does not apply to /repo HEAD"
 fi
